@@ -725,7 +725,7 @@ impl Iterator for Removed {
     fn size_hint(&self) -> (usize, Option<usize>) {
         match self.inner {
             Some(ref iter) => iter.size_hint(),
-            None => (0, None),
+            None => (0, Some(0)),
         }
     }
 }
